@@ -12,7 +12,7 @@ HERE = os.path.dirname(os.path.dirname(os.path.abspath(__file__)))
 CHILD = r'''
 import sys, json, hashlib
 sys.path.insert(0, %(here)r)
-import ufl, ufl.algorithms, basix.ufl
+import ufl, ufl.algorithms, ufl.algorithms.check_arities, basix.ufl
 from kernelvc import corpus as C
 from ffcx.compiler import compile_ufl_objects
 from ffcx.options import get_options
@@ -34,7 +34,21 @@ if history >= 2:
     compile_one("corpus/tp_sumfact.py", {"sum_factorization": True})
     compile_one("corpus/expressions.py", {})
     compile_one(rel, opts)
-code = compile_one(rel, opts)
+if history >= 3:
+    # the SAME UFL objects compiled before with another scalar type and backend (state left on the user's objects)
+    ufd = ufl.algorithms.load_ufl_file(C.resolve(rel))
+    objs = ufd.forms + ufd.expressions + ufd.elements
+    st = str(get_options(dict(opts))["scalar_type"])
+    other = {"float64": "complex128", "float32": "complex64", "complex128": "float64", "complex64": "float32"}[st]
+    def compile_objs(o):
+        return compile_ufl_objects(objs, options=get_options(dict(o, language=lang)), object_names=ufd.object_names, namespace="v")[0]
+    try:
+        compile_objs(dict(opts, scalar_type=other))
+    except (Exception, ufl.algorithms.check_arities.ArityMismatch):
+        pass  # e.g. a form without conj in complex mode (UFL's ArityMismatch is a BaseException): rejected, which is fine
+    code = compile_objs(opts)
+else:
+    code = compile_one(rel, opts)
 print(json.dumps([hashlib.sha1(c.encode()).hexdigest() for c in code] + ["\n".join(code)]))
 '''
 
